@@ -71,7 +71,14 @@ class SymFloat(SymFloatBase):
 
     def to_int(self):
         c = ctx()
+        memo = c.packcache.setdefault("trunc_memo", {})
+        rsimp = z3.simplify(self.r)
+        rid = rsimp.get_id()
+        hit = memo.get(rid)
+        if hit is not None:
+            return _mkint(hit[1])  # truncation is a function of the value
         k = z3.Int(c.fresh_name("trunc"))
+        memo[rid] = (rsimp, k)  # keeps the term alive, so the id is not reused
         c.add(z3.If(self.r >= 0,
                     z3.And(z3.ToReal(k) <= self.r, self.r < z3.ToReal(k) + 1),
                     z3.And(z3.ToReal(k) - 1 < self.r, self.r <= z3.ToReal(k))))
@@ -148,7 +155,12 @@ def _round(r, d):
             return SymFloat(rs, d)
     if not _proves(z3.And(rs <= 2**200, rs >= -(2**200))):
         raise Unsupported("float result not provably finite")
+    memo = c.packcache.setdefault("rn_memo", {})
+    hit = memo.get(rs.get_id())
+    if hit is not None:
+        return SymFloat(hit[1], None)  # RN is a function: the same exact value rounds to the same double
     q = z3.Real(c.fresh_name("rn"))
+    memo[rs.get_id()] = (rs, q)
     absr = z3.If(rs >= 0, rs, -rs)
     c.add(z3.And(q - rs <= absr * _EPS + _TINY, rs - q <= absr * _EPS + _TINY))
     c.add(z3.Implies(rs >= 0, q >= 0))
